@@ -336,6 +336,28 @@ def rule_dvalue(program, ctx):
             ctx.bad(finding_at(P, rid, n, "SQL: d values compared with `in` (substring/container test)"))
 
 
+def rule_dverbatim(program, ctx, prop=P, rid="C09.dverbatim"):
+    ctx.rule(
+        rid,
+        "the d value is compared as the client wrote it: kv.get_d_value returns `tag[1]` of the first d tag (or '') without case folding, stripping or Unicode "
+        "normalisation - two different d values that normalise to the same string are different addresses; treating them as one deletes the other's newest version",
+        floor=1,
+    )
+    fn = program.func_opt("nostr_relay.storage.kv:get_d_value")
+    if fn is None:
+        raise AnalysisError("get_d_value not found")
+    for r in walk_no_nested(fn):
+        if isinstance(r, ast.Return) and r.value is not None:
+            leaves = [r.value.body, r.value.orelse] if isinstance(r.value, ast.IfExp) else [r.value]
+            for v in leaves:
+                if isinstance(v, ast.Constant) and v.value == "":
+                    continue
+                if isinstance(v, ast.Subscript) and isinstance(v.slice, ast.Constant) and v.slice.value == 1 and isinstance(v.value, ast.Name):
+                    ctx.ok(rid, r, f"returns {ast.unparse(v)} verbatim")
+                else:
+                    ctx.bad(finding_at(prop, rid, r, f"get_d_value returns `{ast.unparse(v)[:60]}`, a transformation of the tag value: distinct d values can collapse into one address"))
+
+
 def run(program, ctx):
     from ..lib import rule_awaited
 
@@ -348,10 +370,13 @@ def run(program, ctx):
     rule_all_sql(program, ctx)
     rule_frame_kv(program, ctx)
     rule_dvalue(program, ctx)
+    rule_dverbatim(program, ctx)
     from . import c10
 
     c10.rule_injective(program, ctx, prop=P, rid="C09.index")
     c07.rule_kvregion(program, ctx, prop=P, rid="C09.kvregion")
+    # kinds 0/3 are replaced in DBStorage.post_save under `if changed`: a recipe override that loses `changed` disables it
+    c07.rule_overrides(program, ctx, prop=P, rid="C09.overrides")
     ctx.not_decided += [
         "arrival-order outcomes and equal timestamps as behaviour",
         "that an incoming event older than the stored newest version is itself not kept (both backends store it)",
